@@ -45,76 +45,74 @@ def affine(expr: ast.expr, lenvars: dict[str, str]) -> Optional[dict]:
 
 
 def writeback_conservation(run: Run, model: PyModel, rid: str) -> None:
-    """_update_zo_file (helpers folded in): per note, lines[:s] + X + lines[e:] (or lines[s:e] = X, or lines[s] = f(lines[s])),
-    X = lines[s:e] with only X[0] replaced; s = line_no - 1; e - s = number of '\n'-separated body lines."""
-    from .flatten import flat_info
+    """Abstract runs of _update_zo_file over a virtual page (nothing is read from or written to a disk): the text written back is the
+    page's text with exactly the FIRST line of each listed note replaced by add_thing_to_first_line(get_thing(note), <that line>) --
+    every other line, every other character (form feeds, U+2028, carriage returns, the final newline or its absence) unchanged.
+    The rule is about what is written, not about how the line list is spliced (concatenation, slice store, single-line store ...)."""
+    from .absint import Interp, Raised, State
+    from .absval import FuncV, HObj, Ref
+    from .virtual import World, vpath
 
-    fi = flat_info(model, f"{H}._update_zo_file")
-    fn = fi.node
-    assigns: dict[str, list] = {}
-    for n in walk_no_nested(fn):
-        if isinstance(n, (ast.Assign, ast.AnnAssign)) and getattr(n, "value", None) is not None:
-            tg = n.targets if isinstance(n, ast.Assign) else [n.target]
-            if len(tg) == 1 and isinstance(tg[0], ast.Name):
-                assigns.setdefault(tg[0].id, []).append(n.value)
-    single = {k: ast.unparse(v[0]) for k, v in assigns.items() if len(v) == 1 and not isinstance(v[0], (ast.Subscript, ast.Call)) or (len(v) == 1 and isinstance(v[0], ast.Call) and ast.unparse(v[0].func) == "len")}
+    fi = model.func(f"{H}._update_zo_file")
+    pages = {
+        "adjacent multi-line notes": ["# header", "- first note", "  second line of it", "  third line of it", "o P2 a todo", "  its continuation", "", "- last"],
+        "unusual characters above the notes": ["pasted\u2028text with a line separator", "form\x0cfeed and carriage\rreturn", "- note one", "  cont\u2028inued", "- note two", ""],
+        "first and last line of the page": ["- top", "middle", "x bottom"],
+    }
+    # note -> (1-based line_no, number of lines)
+    notes = {
+        "adjacent multi-line notes": [(2, 3), (5, 2)],
+        "unusual characters above the notes": [(3, 2), (5, 1)],
+        "first and last line of the page": [(1, 1), (3, 1)],
+    }
+    n = 0
+    for label, lines in pages.items():
+        text = "\n".join(lines)
+        W = World(model, files={"p.zo": "h1"}, old_map={"p.zo": "h0"}, indexed={"p.zo"}, errors=set(), whitelist=[], contents={"/Z/p.zo": text})
+        probes = W.probes()
 
-    def aff(e: ast.expr):
-        env = dict(single)
-        for _ in range(4):  # names defined through other names
-            r = affine(e, env)
-            if r is not None:
-                return r
-        return None
+        def add_thing(I, args, kwargs, st, node):
+            return [(f"<{args[0]}|{args[1]}>" if all(isinstance(a, str) for a in args[:2]) and len(args) == 2 else None, st)]
 
-    site = None
-    S_expr = E_expr = None
-    lines = mid_expr = None
-    concat = [v for vs in assigns.values() for v in vs if isinstance(v, ast.BinOp) and isinstance(v.op, ast.Add) and sum(isinstance(x, ast.Subscript) and isinstance(x.slice, ast.Slice) for x in ast.walk(v)) == 2]
-    slice_stores = [n for n in walk_no_nested(fn) if isinstance(n, ast.Assign) and isinstance(n.targets[0], ast.Subscript) and isinstance(n.targets[0].slice, ast.Slice)
-                    and n.targets[0].slice.lower is not None and n.targets[0].slice.upper is not None]
-    if len(concat) == 1:
-        c = concat[0]
-        subs = [x for x in ast.walk(c) if isinstance(x, ast.Subscript) and isinstance(x.slice, ast.Slice)]
-        head = next((x for x in subs if x.slice.lower is None and x.slice.upper is not None), None)
-        tail = next((x for x in subs if x.slice.upper is None and x.slice.lower is not None), None)
-        if head is None or tail is None:
-            run.undecided(rid, "_update_zo_file", "the two slices are not lines[:s] and lines[e:]")
-            return
-        lines, S_expr, E_expr, site = base_name(head.value), head.slice.upper, tail.slice.lower, c
-        mids = [n for n in ast.walk(c) if isinstance(n, ast.Name) and n.id != lines and n.id in assigns and n is not S_expr and n is not E_expr and n.id not in (ast.unparse(S_expr), ast.unparse(E_expr))]
-        mid_expr = mids[0] if mids else None
-    elif len(slice_stores) == 1:
-        t = slice_stores[0].targets[0]
-        lines, S_expr, E_expr, site = base_name(t.value), t.slice.lower, t.slice.upper, slice_stores[0]
-        mid_expr = slice_stores[0].value if isinstance(slice_stores[0].value, ast.Name) else None
-    else:
-        run.undecided(rid, "_update_zo_file", "cannot find `lines[:s] + new + lines[e:]`")
-        return
-    sa, ea = aff(S_expr), aff(E_expr)
-    ok_s = sa is not None and sa.get("L") == 1 and sa.get(1, 0) == -1 and not sa.get("N")
-    run.check(rid, "the splice starts at the note's line (line_no - 1)", ok_s, "_update_zo_file", f"start = {ast.unparse(S_expr)} = {single.get(ast.unparse(S_expr), '?')}",
-              f"`{ast.unparse(S_expr)}` is not line_no - 1: the write-back rewrites a different line than the note's first line", file=FILE_H, node=fn)
-    ok_e = sa is not None and ea is not None and ea.get("L") == 1 and ea.get("N") == 1 and ea.get(1, 0) - sa.get(1, 0) == 0 and "split('\\n')" in ea.get("_len_arg", "") and "body" in ea.get("_len_arg", "")
-    run.check(rid, "the splice covers exactly the note's lines (end - start = number of body lines)", ok_e, "_update_zo_file", f"end = {ast.unparse(E_expr)} = {single.get(ast.unparse(E_expr), '?')}",
-              f"`{ast.unparse(E_expr)} - {ast.unparse(S_expr)}` is not the number of '\\n'-separated lines of the note body: neighbouring lines are dropped or duplicated by the write-back", file=FILE_H, node=fn)
-    # the middle is lines[S:E] with only element 0 replaced
-    mid_name = mid_expr.id if isinstance(mid_expr, ast.Name) else None
-    mid_def = assigns.get(mid_name or "", [])
-    ok_m = len(mid_def) == 1 and isinstance(mid_def[0], ast.Subscript) and base_name(mid_def[0].value) == lines and isinstance(mid_def[0].slice, ast.Slice) \
-        and ast.unparse(mid_def[0].slice.lower or ast.Constant(0)) == ast.unparse(S_expr) and ast.unparse(mid_def[0].slice.upper or ast.Constant(0)) == ast.unparse(E_expr)
-    stores = [n for n in walk_no_nested(fn) if isinstance(n, ast.Subscript) and isinstance(n.ctx, ast.Store) and base_name(n.value) == mid_name]
-    ok_i = bool(stores) and all(isinstance(x.slice, ast.Constant) and x.slice.value == 0 for x in stores)
-    run.check(rid, "only the first line of the note is rewritten", ok_m and ok_i, "_update_zo_file", f"{mid_name} stores {[ast.unparse(x) for x in stores]}",
-              "the replacement lines are not `lines[start:end]` with only element 0 reassigned: other lines of the note (or of its neighbours) change", file=FILE_H, node=fn)
-    # split / join on "\n" exactly
-    reads = [c2 for c2 in ast.walk(fn) if isinstance(c2, ast.Call) and isinstance(c2.func, ast.Attribute) and c2.func.attr in ("split", "splitlines") and "read_text" in ast.unparse(c2)]
-    ok_r = len(reads) == 1 and reads[0].func.attr == "split" and reads[0].args and isinstance(reads[0].args[0], ast.Constant) and reads[0].args[0].value == "\n"
-    joins = [c2 for c2 in find_calls(fn, "join") if isinstance(c2.func.value, ast.Constant) and any("write_text" in ast.unparse(p) for p in ast.walk(fn) if isinstance(p, ast.Call) and c2 in ast.walk(p))]
-    ok_j = len(joins) == 1 and joins[0].func.value.value == "\n"
-    run.check(rid, "the page is split and re-joined on '\\n' only (the unit line_no counts)", ok_r and ok_j, "_update_zo_file", reads[0] if reads else "no split",
-              "the page is not split on exactly '\\n' (e.g. splitlines() also splits on U+2028, \\x0c ...): indices derived from line_no then point at the wrong lines "
-              "and ZIDs land in other notes' text", file=FILE_H, node=reads[0] if reads else fn)
+        def get_thing(I, args, kwargs, st, node):
+            return [(st.obj(args[0]).fields["zid"] if isinstance(args[0], Ref) else None, st)]
+
+        probes["zv.add_thing"] = add_thing
+        probes["zv.get_thing"] = get_thing
+        I = Interp(model, probes=probes, max_states=4000)
+        st = State()
+        objs = []
+        for k, (ln, cnt) in enumerate(notes[label]):
+            body_lines = lines[ln - 1:ln - 1 + cnt]
+            body = "\n".join([body_lines[0][2:]] + body_lines[1:])
+            objs.append(st.alloc(HObj("obj", cls="zorg.domain.models._page.Note", fields=dict(body=body, zid=f"T{k}", line_no=ln, todo_payload=None, modify_date=None, create_date=None, file_path=None))))
+        kwargs = dict(zdir=vpath("/Z"), zo_path=vpath("/Z/p.zo"), notes_to_update=st.alloc(HObj("list", items=objs)), add_thing_to_first_line=FuncV("zv.add_thing"), get_thing=FuncV("zv.get_thing"),
+                      log_message="m")
+        try:
+            res = I.run_function(f"{H}._update_zo_file", [], kwargs, st=st)
+        except Exception as e:  # noqa: BLE001
+            run.undecided(rid, "_update_zo_file", f"{label}: cannot interpret: {type(e).__name__}: {str(e)[:100]}")
+            continue
+        want = list(lines)
+        for k, (ln, cnt) in enumerate(notes[label]):
+            want[ln - 1] = f"<T{k}|{lines[ln - 1]}>"
+        want_text = "\n".join(want)
+        for v, s in res:
+            n += 1
+            if isinstance(v, Raised) or s.imprecise:
+                run.undecided(rid, "_update_zo_file", f"{label}: " + (f"raises {v.exc}" if isinstance(v, Raised) else "; ".join(s.imprecise[:2])))
+                continue
+            writes = [t[2] for t in s.trace if t[0] == "write_text" and t[1] == "/Z/p.zo"]
+            got = writes[-1] if writes else None
+            detail = "nothing is written" if got is None else "wrote " + repr(got)[:160]
+            if isinstance(got, str) and got != want_text:
+                gl, wl = got.split("\n"), want
+                k = next((i for i in range(min(len(gl), len(wl))) if gl[i] != wl[i]), min(len(gl), len(wl)))
+                detail = f"line {k + 1} becomes {gl[k]!r} instead of {wl[k]!r}" if k < min(len(gl), len(wl)) else f"{len(gl)} lines written, {len(wl)} expected"
+            run.check(rid, f"{label}: only the first line of each listed note changes, everything else is written back unchanged", got == want_text, "_update_zo_file", f"{label}: {detail}",
+                      f"write-back of a page ({label}): {detail}: lines of the note or of its neighbours are dropped, duplicated or rewritten (line_no counts '\\n'-separated lines only; "
+                      "splitlines() also splits on U+2028, \\x0c, \\r ...), so ZIDs / dates land in other notes' text", file=FILE_H, node=fi.node)
+    run.floor("write-back scenarios", n, 3)
 
 
 def page_then_hashmap(run: Run, model: PyModel, eff: Effects, rid: str) -> None:
